@@ -35,8 +35,16 @@ def main():
         a, b = sites[0][0], sites[0][1]
         open(p, "w").write(t[:a] + r["new"] + t[b:])
         try:
-            x = subprocess.run(["nice", "-n", "10", "cargo", "test", "--offline", "--workspace", "--", "--test-threads", "4"], cwd=WT, env=env, stdout=subprocess.PIPE, stderr=subprocess.STDOUT, text=True, timeout=1500)
-            out = x.stdout
+            # own process group: on a timeout the test binary a mutant sent into an endless loop is killed too, not only cargo
+            import os as _os, signal as _signal
+            pr = subprocess.Popen(["nice", "-n", "10", "cargo", "test", "--offline", "--workspace", "--", "--test-threads", "4"], cwd=WT, env=env, stdout=subprocess.PIPE, stderr=subprocess.STDOUT, text=True, start_new_session=True)
+            try:
+                out, _ = pr.communicate(timeout=1500)
+            except subprocess.TimeoutExpired:
+                _os.killpg(pr.pid, _signal.SIGKILL)
+                pr.communicate()
+                raise
+            x = pr
             if "error[" in out or "could not compile" in out:
                 r["tests"] = "nocompile"
             elif x.returncode == 0:
